@@ -190,6 +190,24 @@ func (g *Gen) famOpen(n int) clip.Path64 {
 	return p
 }
 
+// famRectilinear: a rectangle or an L/U-shaped rectilinear polygon with its
+// corners on a coarse grid; many of them overlap, touch and nest (splits,
+// horizontal joins, several nesting levels in poly-tree output).
+func (g *Gen) famRectilinear() clip.Path64 {
+	S := g.pal.S
+	cells := g.rng(5, 10)
+	step := math.Max(1, math.Floor(2*S/float64(cells)))
+	at := func(i int) int64 { return rnd(-S + float64(i)*step) }
+	x0, y0 := g.rng(0, cells-2), g.rng(0, cells-2)
+	x1, y1 := g.rng(x0+1, cells), g.rng(y0+1, cells)
+	if g.p(0.6) || x1-x0 < 2 || y1-y0 < 2 {
+		return g.maybeReverse(clip.Path64{{X: at(x0), Y: at(y0)}, {X: at(x1), Y: at(y0)}, {X: at(x1), Y: at(y1)}, {X: at(x0), Y: at(y1)}})
+	}
+	// L shape: cut a corner rectangle out
+	xm, ym := g.rng(x0+1, x1-1), g.rng(y0+1, y1-1)
+	return g.maybeReverse(clip.Path64{{X: at(x0), Y: at(y0)}, {X: at(x1), Y: at(y0)}, {X: at(x1), Y: at(ym)}, {X: at(xm), Y: at(ym)}, {X: at(xm), Y: at(y1)}, {X: at(x0), Y: at(y1)}})
+}
+
 func (g *Gen) degenerate(p clip.Path64) clip.Path64 {
 	if len(p) == 0 {
 		return p
@@ -228,6 +246,14 @@ func (g *Gen) pathSet64(open bool, small bool) clip.Paths64 {
 		nP = 0
 	}
 	var out clip.Paths64
+	if !open && !small && g.p(0.12) {
+		// a dense arrangement of rectilinear polygons
+		for i, n := 0, g.rng(5, 12); i < n; i++ {
+			out = append(out, g.famRectilinear())
+		}
+		g.spreadY(out)
+		return out
+	}
 	fam := g.n(9)
 	for i := 0; i < nP; i++ {
 		if g.p(0.35) {
@@ -542,9 +568,9 @@ var fnOps = []struct {
 	w    int
 }{
 	{"BooleanOpPaths64", 10}, {"UnionPaths64", 2}, {"UnionWithClipPaths64", 1}, {"IntersectWithClipPaths64", 2}, {"DifferenceWithClipPaths64", 1}, {"XorWithClipPaths64", 1},
-	{"BooleanOpPolyTree64", 4},
+	{"BooleanOpPolyTree64", 6},
 	{"BooleanOpPathsD", 7}, {"UnionPathsD", 1}, {"UnionWithClipPathsD", 1}, {"IntersectWithClipPathsD", 1}, {"DifferenceWithClipPathsD", 1}, {"XorWithClipPathsD", 1},
-	{"BooleanOpPolyTreeD", 3},
+	{"BooleanOpPolyTreeD", 5},
 	{"InflatePaths64", 7}, {"InflatePathsD", 5},
 	{"MinkowskiSum64", 2}, {"MinkowskiDiff64", 2}, {"MinkowskiSumD", 2}, {"MinkowskiDiffD", 1},
 	{"RectClipPaths64", 3}, {"RectClipPath64", 1}, {"RectClipLinesPaths64", 2}, {"RectClipLinesPath64", 1},
